@@ -142,8 +142,8 @@ class C30(Prop):
         "points_segments and segment_segment_set: the point-segment result is the global minimum "
         "over the segment, attained at the returned closest point, which lies on the segment "
         "(every point, every non-degenerate segment); for segment-segment (all branches of the "
-        "vectorised Sunday/Eberly case analysis, including the SMALL_TOLERANCE masks, any "
-        "tolerance >= 0) the returned parameters lie in [0,1], the returned closest points lie "
+        "vectorised Sunday/Eberly case analysis, including the SMALL_TOLERANCE masks, any positive "
+        "tolerance) the returned parameters lie in [0,1], the returned closest points lie "
         "on the respective segments and realise the returned distance. The model is tied to the "
         "code on every run (Coq recomputes distances and closest points in exact rationals on "
         "integer 2-d/3-d configurations incl. parallel, collinear, intersecting, touching and "
